@@ -15,6 +15,7 @@ import Driver.Files
 import Driver.Parse
 import Driver.Bridge
 import Driver.Entry
+import Driver.Pflag
 
 open Lean Driver
 
@@ -40,6 +41,7 @@ def dispatch (op : String) (inp out : Json) : Json :=
   | "compline" => runComplineOp inp out
   | "trimdesc" => runTrimdescOp inp out
   | "abs" => runAbsOp inp out
+  | "pflagparse" => runPflagParseOp inp out
   | "timeoutrace" => runTimeoutOp inp out
   | _ => Json.mkObj [("same", Json.bool false), ("diff", Json.str s!"unknown op {op}"), ("fails", Json.arr #[])]
 
